@@ -192,7 +192,7 @@ def cases(draw, tier="quick", force_sel=None):
         case["glob"] = dict(prefix=draw(st.sampled_from([b"", b"/", b"/pre", b"/a/b", b"pre/"])),
                             mode=draw(st.one_of(st.none(), treemodel.modes())),
                             uid=draw(st.one_of(st.none(), treemodel.ids())), gid=draw(st.one_of(st.none(), treemodel.ids())),
-                            types=types)
+                            types=types, bare=draw(st.sampled_from([False, False, False, True])))
         case["nodes"] = draw(treemodel.trees(mode="dir", want_hlinks=True, want_xattrs=False, allow_newline=True))
         # -name / -path / -nonrecursive: patterns are made from names of the tree ('*' for a slice, '?' for a byte and for every
         # byte that is special to fnmatch), so that some entries match and some do not
